@@ -328,6 +328,37 @@ Qed.
 
 End NS.
 
+(* ---- the entry state of a @leftrec loop ------------------------------------------------------------ *)
+Section Entry.
+Variable scfg : state_cfg.
+Hypothesis Hle : rec_le scfg = true.
+
+Lemma entry_ok0 st :
+  (forall f, far st = Some f -> e_spec f <> LeftRecursionSentinel) ->
+  Ist (off st) (record_error scfg st (report_error scfg st LeftRecursionSentinel)).
+Proof.
+  intro N. set (a0 := {| e_pos := off st; e_spec := LeftRecursionSentinel |}).
+  assert (Ia : Ist (off st) {| rest := rest st; off := off st; far := Some a0 |}).
+  { split; cbn; [constructor|]. intros f' E. injection E as <-. right. split; [reflexivity|cbn; constructor]. }
+  unfold report_error. fold a0.
+  destruct (far st) as [f|] eqn:F.
+  - specialize (N f eq_refl). destruct (Nat.leb (e_pos f) (off st)) eqn:L.
+    + assert (R1 : record_error scfg st a0 = {| rest := rest st; off := off st; far := Some a0 |}).
+      { unfold record_error. rewrite F, Hle. cbn [e_pos a0]. rewrite L. reflexivity. }
+      rewrite R1. unfold report_farthest_error. cbn [far]. rewrite R1. exact Ia.
+    + assert (R1 : record_error scfg st a0 = st).
+      { unfold record_error. rewrite F, Hle. cbn [e_pos a0]. rewrite L. reflexivity. }
+      rewrite R1. unfold report_farthest_error. rewrite F.
+      unfold record_error. rewrite F, Hle, PeanoNat.Nat.leb_refl.
+      split; cbn; [constructor|]. intros f' E. injection E as <-.
+      left. split; [exact N|]. apply PeanoNat.Nat.leb_gt in L. lia.
+  - assert (R1 : record_error scfg st a0 = {| rest := rest st; off := off st; far := Some a0 |}).
+    { unfold record_error. rewrite F. reflexivity. }
+    rewrite R1. unfold report_farthest_error. cbn [far]. rewrite R1. exact Ia.
+Qed.
+
+End Entry.
+
 (* ---- the usual shape ----------------------------------------------------------------------------- *)
 Section UsualNS.
 Variable ustate : Type.
@@ -422,3 +453,79 @@ Proof.
 Qed.
 
 End UsualNS.
+
+(* ---- recursion through a plain rule (Indirect.v):  @leftrec A = @:P | b1 | balts...;  P = l:*A x... ---------- *)
+From PegV Require Import GrowLoop Indirect.
+
+Section IndirectNS.
+Variable ustate : Type.
+Variable scfg : state_cfg.
+Hypothesis Hle : rec_le scfg = true.
+Variable tcfg : term_cfg.
+Variable fcfg : fields_cfg.
+Variable rcfg : rule_cfg.
+Hypothesis Hclosed : leftrec_closed rcfg = true.
+Variable hk : hooks ustate.
+Variable g : grammar.
+Notation glb := (glob ustate).
+Notation Mrun := (run ustate scfg tcfg fcfg rcfg hk g).
+
+Variable A P : rule.
+Notation a := (r_name A).
+Notation p := (r_name P).
+Variable l : name.
+Variable bx : bool.
+Variable x1 : expr.
+Variable xs : list expr.
+Variable b1 : expr.
+Variable balts : list expr.
+Hypothesis HdefA : r_def A = idef P b1 balts.
+Hypothesis HdefP : r_def P = pdef A l bx x1 xs.
+Hypothesis HfindA : find_grule g a = Some (GRule A).
+Hypothesis HfindP : find_grule g p = Some (GRule P).
+Hypothesis HlrA : fl_left_recursive (flags_of (r_directives A)) = true.
+Hypothesis HlrP : fl_left_recursive (flags_of (r_directives P)) = false.
+Hypothesis HmemoP : fl_memoize (flags_of (r_directives P)) = false.
+Variable rfA fdsA innerA1 rfP fdsP1 : list fdesc.
+Hypothesis HrfA : get_fields fcfg (gf_fuel g) g (idef P b1 balts) = GFOk rfA.
+Hypothesis HrfP : get_fields fcfg (gf_fuel g) g (pdef A l bx x1 xs) = GFOk rfP.
+Hypothesis HfdsA : filt fcfg g (actx A rfA) (idef P b1 balts) = Some fdsA.
+Hypothesis HinnerA1 : own_fields fcfg g (ialt1 P) = Some innerA1.
+Hypothesis HfdsP1 : filt fcfg g (actx P rfP) (palt A l bx x1 xs) = Some fdsP1.
+
+Variable clean : name -> bool.
+Hypothesis Hclean : forall n, clean n = true -> rule_clean g clean n.
+Hypothesis Hinc : forall n r, clean n = true -> find_rule g n = Some r -> eclean clean (r_def r) = true.
+Hypothesis Hwsc : clean n_Whitespace = true.
+Hypothesis Hb : lclean clean (b1 :: balts) = true.
+
+Theorem indirect_no_sentinel st F gl e gl' :
+  Wi g A P rfA rfP st ->
+  (forall f, far st = Some f -> e_spec f <> LeftRecursionSentinel) ->
+  cache_get a (off st) (g_cache gl) = None ->
+  ev_rule (Mrun F) a st gl = (MErr e, gl') ->
+  e_spec e <> LeftRecursionSentinel.
+Proof.
+  intros W N C E.
+  pose proof (indirect_parse ustate scfg tcfg fcfg rcfg hk g A P l bx x1 xs b1 balts HdefA HdefP HfindA HfindP HlrA HlrP HmemoP
+                rfA fdsA innerA1 rfP fdsP1 HrfA HrfP HfdsA HinnerA1 HfdsP1 st W F gl (MErr e) gl' C E) as U.
+  cbv zeta in U. destruct (U Hclosed) as (k & gl0 & gl1 & B). clear U.
+  unfold indirect_body, p_call, p_resolved in B. cbn [finish] in B.
+  set (e0 := report_error scfg st LeftRecursionSentinel) in *.
+  set (cst := record_error scfg st e0) in *.
+  pose proof (entry_ok0 scfg Hle st N) as I0. fold e0 in I0. fold cst in I0.
+  match type of B with finish _ _ _ _ _ _ (choice_loop _ _ _ _ ?ev ?ctx ?fds ?alts ?c0 ?g0) = _ =>
+    pose proof (U_choice_loop ustate scfg Hle fcfg g clean (off st) ev
+                  (no_sentinel_walk ustate scfg Hle tcfg fcfg rcfg hk g clean Hclean Hinc Hwsc (off st) _)
+                  ctx fds alts Hb c0 g0 I0 (fun X => ltac:(discriminate X))) as Q;
+    unfold post in Q; destruct (choice_loop ustate scfg fcfg g ev ctx fds alts c0 g0) as [[fs s'|e'|pn|] g2]
+  end; cbn [fst] in Q; unfold finish in B.
+  - match type of B with (match ?o with _ => _ end) = _ => destruct o as [w|] end; [|discriminate B].
+    pose proof (U_run_checks ustate scfg Hle hk clean (off st) (checks_of (r_directives A)) w s' g2 Q) as Q2.
+    unfold post in Q2. rewrite B in Q2. cbn [fst] in Q2. exact (proj1 Q2).
+  - injection B as <- _. exact (proj1 Q).
+  - discriminate B.
+  - discriminate B.
+Qed.
+
+End IndirectNS.
